@@ -311,6 +311,16 @@ func (t *State) verifyXuperSign(tx *pb.Transaction, digestHash []byte) (bool, ma
 			return false, nil, errors.New("XuperSign: address and public key not match")
 		}
 	}
+	if len(pubkeys) > 1 {
+		// one signature vouches for every listed key only if it is a multi-signature of all of them: a plain
+		// ECDSA/Schnorr signature is checked against the first key alone, a ring signature proves that one
+		// (unnamed) key signed
+		sigInfo := struct{ SigType string }{}
+		if err := json.Unmarshal(tx.GetXuperSign().GetSignature(), &sigInfo); err != nil || sigInfo.SigType != "MultiSig" {
+			t.log.Warn("XuperSign: several keys need a multi-signature", "sigType", sigInfo.SigType)
+			return false, nil, errors.New("XuperSign: a signature that covers several keys must be a multi-signature")
+		}
+	}
 	ok, err := t.sctx.Crypt.VerifyXuperSignature(pubkeys, tx.GetXuperSign().GetSignature(), digestHash)
 	if err != nil || !ok {
 		t.log.Warn("XuperSign: signature verify failed", "error", err)
